@@ -33,6 +33,12 @@ G0m = {"flavor": "f64", "kind": "gauge", "threads": ["t1", "t2", "t3"], "pre": [
        "scripts": {"t1": [{"k": "add", "v": 1}, {"k": "get"}], "t2": [{"k": "get", "via": "metric"}, {"k": "get", "via": "metric"}], "t3": [{"k": "set", "v": -0.0}, {"k": "add", "v": 2}, {"k": "get", "via": "metric"}]}}
 G2m = {"flavor": "f64", "kind": "gauge", "threads": ["t1", "t2"],
        "scripts": {"t1": [{"k": "add", "v": 4}, {"k": "get", "via": "metric"}, {"k": "sub", "v": 4}], "t2": [{"k": "set", "v": 8}, {"k": "get", "via": "metric"}, {"k": "inc"}]}}
+# amounts at the ends of the i64 range (judged in the image under x -> x mod 256, see LinGauge.tla): add(i64::MIN) and sub(i64::MIN)
+# cancel, add(i64::MAX) then inc wraps
+JX = {"flavor": "int", "kind": "intgauge", "threads": ["t1", "t2"], "ring": 256,
+      "scripts": {"t1": [{"k": "add", "v": "MIN"}, {"k": "sub", "v": "MIN"}, {"k": "get"}], "t2": [{"k": "add", "v": "MAX"}, {"k": "inc"}, {"k": "sub", "v": "-MAX"}, {"k": "get"}]}}
+JX2 = {"flavor": "int", "kind": "intgauge", "threads": ["t1", "t2"], "ring": 256,
+       "scripts": {"t1": [{"k": "sub", "v": "MIN"}, {"k": "get"}, {"k": "sub", "v": "MAX"}], "t2": [{"k": "set", "v": "MAX"}, {"k": "add", "v": 3}, {"k": "get"}]}}
 # non-finite values (the float gauge over the extended reals): +Inf - Inf = NaN, NaN absorbs add/sub but not set
 GX1 = {"flavor": "f64", "kind": "gauge", "threads": ["t1", "t2"], "pre": [{"k": "set", "v": "+Inf"}],
        "scripts": {"t1": [{"k": "add", "v": "-Inf"}, {"k": "get"}], "t2": [{"k": "set", "v": 5}, {"k": "inc"}, {"k": "get"}]}}
@@ -53,11 +59,15 @@ def run(ctx):
         # (no edge-cover replay here: the model's integers do not distinguish -0.0 from +0.0, the code's compare-exchange does)
         run_scenario(ctx, "C11", exe, G0, "G0", stats, samples, *O, model=False, nrandom=400)
         run_scenario(ctx, "C11", exe, GS, "GS", stats, samples, *O, model=False, nrandom=20, check=False)
+        run_scenario(ctx, "C11", exe, JX, "JX", stats, samples, *O, model=False, nrandom=60, check=False, kinds=["intgauge", "intgaugevec_child"])
+        run_scenario(ctx, "C11", exe, JX2, "JX2", stats, samples, *O, model=False, nrandom=60, check=False)
         run_scenario(ctx, "C11", exe, G0m, "G0m", stats, samples, *O, model=False, nrandom=200, check=False)
         run_scenario(ctx, "C11", exe, G2m, "G2m", stats, samples, *O, model=False, nrandom=100, check=False, kinds=["gauge", "intgauge"])
         run_scenario(ctx, "C11", exe, GX1, "GX1", stats, samples, *O, model=False, nrandom=150, check=False, kinds=["gauge", "gaugevec_child"])
         run_scenario(ctx, "C11", exe, GX2, "GX2", stats, samples, *O, model=False, nrandom=150, check=False)
     else:
+        run_scenario(ctx, "C11", exe, JX, "JX", stats, samples, *O, model=False, nrandom=3000, check=False, kinds=["intgauge", "intgaugevec_child"])
+        run_scenario(ctx, "C11", exe, JX2, "JX2", stats, samples, *O, model=False, nrandom=3000, check=False, kinds=["intgauge", "intgaugevec_child"])
         run_scenario(ctx, "C11", exe, G0m, "G0m", stats, samples, *O, model=False, nrandom=5000, check=False, kinds=["gauge", "gaugevec_child"])
         run_scenario(ctx, "C11", exe, G2m, "G2m", stats, samples, *O, model=False, nrandom=3000, check=False, kinds=["gauge", "intgauge", "gaugevec_child"])
         run_scenario(ctx, "C11", exe, GX1, "GX1", stats, samples, *O, model=False, nrandom=5000, check=False, kinds=["gauge", "gaugevec_child"])
